@@ -541,8 +541,57 @@ type c12Scenario struct {
 	Msgs      []string `json:"messages"`
 }
 
+// c12Directed: important sends whose frame does not live in the receive buffer's original array
+// (compressed and unpacked into a grown buffer; second frame of a large segment). The
+// acknowledgement must carry the sender's reference (was: stale bytes, S8).
+func c12Directed(c *Ctx) {
+	r := c.R
+	for variant := 0; variant < 4; variant++ {
+		rng := c.Rng.Fork()
+		o := w5Opts{Pool: 1, RelayMode: 4, ImportantA: true, ImportantB: true}
+		if variant >= 2 {
+			o.RelayMode = 2
+		}
+		p, err := w5NewPair(rng, o)
+		if err != nil {
+			r.Disagree("c12-pair", err.Error(), nil)
+			return
+		}
+		sc := c12Scenario{Seed: c.Seed, Index: -1 - variant, Pool: 1, Relay: o.RelayMode, Senders: 1, Important: true}
+		var msgs []*c12Msg
+		for i := 0; i < 6; i++ {
+			body := make([]byte, 9000+i*3000)
+			for k := range body {
+				body[k] = byte('a' + k%7)
+			}
+			m := &c12Msg{Idx: i, Kind: []string{"SendPID", "SendProcessID", "SendAlias"}[i%3],
+				From:    gen.PID{Node: "a@w5", ID: uint64(9000000 + variant*100 + i), Creation: 1001},
+				To:      gen.PID{Node: "b@w5", ID: uint64(8 * (i + 1)), Creation: 2002},
+				Name:    gen.Atom(fmt.Sprintf("directed%d_%d", variant, i)),
+				Payload: body}
+			m.Alias = gen.Alias{Node: "b@w5", ID: [3]uint64{uint64(16 * (i + 1)), 5, 6}, Creation: 2002}
+			m.Opts = gen.MessageOptions{Priority: gen.MessagePriority(i % 3), ImportantDelivery: true, KeepNetworkOrder: true}
+			m.Opts.Ref = gen.Ref{Node: "a@w5", Creation: 1001, ID: [3]uint64{0xA0A0A0A000000000 + uint64(variant*100+i), 0, 0}}
+			if variant%2 == 0 {
+				m.Opts.Compression = gen.Compression{Enable: true, Type: []gen.CompressionType{gen.CompressionTypeGZIP, gen.CompressionTypeZLIB, gen.CompressionTypeLZW}[i%3], Threshold: 1024}
+			}
+			msgs = append(msgs, m)
+			sc.Msgs = append(sc.Msgs, fmt.Sprintf("%d:%s important, %d-byte payload, compression=%v", i, m.Kind, len(body), m.Opts.Compression.Enable))
+		}
+		for _, m := range msgs {
+			m.sendErr = c12Send(p.A.conn, m)
+		}
+		p.waitRoutes(p.B.core, int64(len(msgs)), 400*time.Millisecond, 20*time.Second)
+		p.waitRoutes(p.A.core, int64(len(msgs)), 400*time.Millisecond, 20*time.Second)
+		time.Sleep(2 * time.Millisecond)
+		c12CheckScenario(c, sc, o, p, msgs)
+		p.Close()
+	}
+}
+
 func c12EndToEnd(c *Ctx) {
 	r := c.R
+	c12Directed(c)
 	nsc := c.N(28, 400)
 	for si := 0; si < nsc; si++ {
 		if r.Failed() && len(r.Violations)+len(r.Disagreements) > 6 {
